@@ -230,7 +230,7 @@ def generate_from_statistics(args):
                 "update": {
                     "connected_charging_station": "CS_" + v_id,
                     "estimated_time_of_departure": None,
-                    "desired_soc": 0,
+                    "desired_soc": args.min_soc,
                     "soc_delta": -soc_delta
                 }
             })
